@@ -243,10 +243,45 @@ package router
 //@   ensures err == nil ==> b != nil && fresh(b)
 //@   ensures err != nil ==> b == nil
 //@   callsite Pack: [C07:cached-copy-is-the-full-encoding] arg0 == m && arg2 == false && arg3 == 0
+// the two scratch buffers (the encoding, its compressed form) are this call's own, stay owned while they are read
+// and written, are distinct, and go back to the pool exactly once each; what is compressed is exactly the bytes
+// Pack wrote, and what is returned is a private copy of exactly the compressor's output
+//@   ghost nGet int = 0
+//@   ghost gP pool.Buffer = nil
+//@   ghost gC pool.Buffer = nil
+//@   ghost gN int = 0
+//@   ghost gEnc []byte = nil
+//@   ghost gCopy pool.Buffer = nil
+//@   ghost nRelP int = 0
+//@   ghost nRelC int = 0
+//@   aftercall GetBuf: gP = (nGet == 0 ? ret0 : gP)
+//@   aftercall GetBuf: gC = (nGet == 1 ? ret0 : gC)
+//@   aftercall GetBuf: nGet = nGet + 1
+//@   aftercall Pack: gN = ret0
+//@   aftercall Encode?: gEnc = ret0
+//@   aftercall CopyBuf?: gCopy = ret0
+//@   oncall ReleaseBuf: nRelP = nRelP + (nGet >= 1 && sameObj(arg0, gP) ? 1 : 0)
+//@   oncall ReleaseBuf: nRelC = nRelC + (nGet >= 2 && sameObj(arg0, gC) ? 1 : 0)
+//@   callsite Pack: [C07,C20:packs-into-its-own-live-buffer] nGet == 1 && arg1 == gP && nRelP == 0
+//@   callsite Encode?: [C07:compresses-exactly-the-packed-bytes] sameSlice(arg1, gP, 0, gN)
+//@   callsite Encode?: [C20:scratch-buffers-owned-and-distinct-while-in-use] nRelP == 0 && nRelC == 0 && nGet == 2 && arg0 == gC
+//@   callsite CopyBuf?: [C07,C20:private-copy-of-the-compressed-bytes-taken-while-they-are-owned] arg0 == gEnc && nRelC == 0
+//@   callsite ReleaseBuf: [C20:only-its-own-scratch-buffers] (nGet >= 1 && sameObj(arg0, gP)) || (nGet >= 2 && sameObj(arg0, gC))
+//@   ensures [C20:scratch-buffers-released-exactly-once] nRelP == 1 && nRelC == (nGet == 2 ? 1 : 0)
+//@   ensures [C07:returns-that-copy] err == nil ==> b == gCopy
+// unpackCacheMsg: the scratch buffer is this call's own and is released once, after the message has been decoded
+// from it (the decoded message owns its names - UnpackMsg copies them)
 //@ func unpackCacheMsg(m []byte) (r *dnsmsg.Msg, err error)
-//@   props C07 C01
+//@   props C07 C01 C20
 //@   ghost gd []byte = m
 //@   aftercall Decode?: gd = ret0
+//@   ghost gS pool.Buffer = nil
+//@   ghost nRelS int = 0
+//@   aftercall GetBuf?: gS = ret0
+//@   oncall ReleaseBuf?: nRelS = nRelS + 1
+//@   callsite Decode?: [C20:decodes-into-its-own-live-buffer] arg0 == gS && nRelS == 0
+//@   callsite UnpackMsg?: [C20:scratch-still-owned-while-it-is-parsed] nRelS == 0
+//@   callsite ReleaseBuf?: [C20:its-own-scratch-buffer-once] sameObj(arg0, gS) && nRelS == 0
 //@   modifies nothing
 //@   ensures err == nil ==> r != nil && fresh(r) && wfMsg(r) && freshElems(r)
 //@   ensures [C20:own-objects] err == nil ==> ownSecs(r)
